@@ -153,6 +153,11 @@ def extra_instances():
     add(M("N[$]", S("[$]", ["[$]C(C[$|3 0 0 1|])C[$]"], ["[$]C(Br)(Br)Br"], "[$]", g(100)), "[$]O", name="list-into-heavy-endgroup"))
     # isotope labelled hydrogens written before the atom that carries the descriptor
     add(M(S("[]", ["[<]C([2H])([2H])C[>]"], ["[2H]C([2H])([2H])[>]", "[<]F"], "[]", g(60)), name="deuterated"))
+    # double / triple bonds towards descriptors: the bond created must have their order; orders must agree to be compatible
+    add(M(S("[]", ["[<]=CC=[>]", "[<]=C(C)C=[>]"], ["[<]=O", "[>]=N"], "[]", g(60)), name="double-bond-descriptors"))
+    add(M(S("[]", ["[$]#CC#[$]"], ["[$]#N", "[$]#C"], "[]", g(50)), name="triple-bond-descriptors"))
+    add(M(S("[]", ["[$]=CC[$]", "[$]C(=[$])C"], ["[$]=O", "[$][H]", "[$]F"], "[]", g(60)), name="mixed-order-descriptors"))
+    add(M("C[>]", S("[>]", ["[<]C(=[>2])C[>]", "[<2]=CC[>2]"], ["[<2]=O"], "[<]", g(45)), "[<]O", name="double-bond-graft"))
     # automatic descriptor insertion: prefix, connector and suffix written without descriptors
     add(Mol([Token(["OC", _imp(">", w=0)]), S("[>]", ["[<]CC[>]"], [], "[<]", g(40)),
              Token([_imp("<"), "CO", _imp(">", w=0)]), S("[>]", ["[<]CS[>]"], [], "[<]", g(50)),
